@@ -96,13 +96,20 @@ theorem blank_ai_condition_errs (re : Regex) (o : AsyncOracle) (f : FileCtx) (b 
   rw [e] at h1
   simp [checkBlock, h1, h2]
 
-/-- an unreadable / failing script or endpoint (outcome oracle answers an error) is an error -/
-theorem async_fault_errs (re : Regex) (o : AsyncOracle) (f : FileCtx) (b : BlockCtx) (a : Text) (e : ErrKind)
+/-- an unreadable / failing script or endpoint (outcome oracle answers a failure) is an error -/
+theorem async_fault_errs (re : Regex) (o : AsyncOracle) (f : FileCtx) (b : BlockCtx) (a c : Text) (e : ErrKind)
     (h1 : Tag.attrGet b.block.attrs "check-lua".toList = some a) (h2 : (trim a).isEmpty = false)
-    (h3 : o "check-lua" f.path b.block = .error e) : checkBlock re o "check-lua" f b = .error e := by
+    (hc : blockContent re f.text b.block "check-lua-pattern" .luaError = .ok c)
+    (h3 : o "check-lua" f.path b.block = .fail e) : checkBlock re o "check-lua" f b = .error e := by
   have e' : "check-lua".toList = ['c', 'h', 'e', 'c', 'k', '-', 'l', 'u', 'a'] := rfl
   rw [e'] at h1
-  simp [checkBlock, h1, h2, h3]
+  simp [checkBlock, h1, h2, hc, h3]
+
+/-- an uncompilable `check-lua-pattern` / `check-ai-pattern` is an error before the script / request runs -/
+theorem bad_content_pattern_errs (re : Regex) (file : Text) (b : Block) (attr : String) (p : Text) (e : ErrKind)
+    (h1 : Tag.attrGet b.attrs attr.toList = some p) (h2 : re.compiles p = false) :
+    blockContent re file b attr e = .error e := by
+  unfold blockContent; rw [h1]; simp only [h2, Bool.not_false, if_true]
 
 /-- **run fails**: an erring block of a detected validator makes the whole run an error, exit 1 -/
 theorem run_fails_closed (re : Regex) (oracle : AsyncOracle) (ctx : List FileCtx) (en dis : List String)
